@@ -1385,11 +1385,41 @@ def _b_map(eng, args, kwargs):
 
 def _b_iter(eng, args, kwargs):
     v = args[0]
+    if len(args) == 2:  # iter(callable, sentinel): modelled where the callable is a method whose owner says what that iteration is
+        hook = v.recv.proto.get("__iter_sentinel__") if isinstance(v, NativeMethod) and isinstance(v.recv, Opaque) else None
+        if hook is None:
+            raise Unsupported("iter(callable, sentinel)")
+        return Iter(hook(eng, v.recv, v.name, args[1]))
     return v if isinstance(v, Iter) else Iter(v)
 
 
 def _b_next(eng, args, kwargs):
+    v = args[0] if args else None
+    if isinstance(v, Iter) and not v.consumed:
+        v = v.seq
+    if isinstance(v, Opaque) and "__next__" in v.proto and not kwargs:  # an object with a modelled __next__ (a text handle: the next line)
+        if len(args) == 1:
+            return v.proto["__next__"](eng, v, [], {})
+        try:
+            return v.proto["__next__"](eng, v, [], {})
+        except ProgExc as e:
+            if e.cls is StopIteration:
+                return args[1]
+            raise
     raise Unsupported("next()")
+
+
+def iteration_finished(eng, v, count):
+    """a `for` loop stopped consuming `v` after `count` items (its normal end, or a `break`): sequences with a position (a text handle
+    and what wraps it) are told where they stand"""
+    if isinstance(v, Iter):
+        return iteration_finished(eng, v.seq, count)
+    if isinstance(v, (_Enum, _MapIt)):
+        return iteration_finished(eng, v.seq, count)
+    if isinstance(v, Opaque) and "__iter_done__" in v.proto:
+        return v.proto["__iter_done__"](eng, v, count)
+    if hasattr(v, "__pyvc_iter_done__"):
+        return v.__pyvc_iter_done__(eng, count)
 
 
 def _b_min(eng, args, kwargs):
